@@ -14,22 +14,20 @@
 (*                      | nothing), then write slots one by one; every slot  *)
 (*                      is written exactly once or none at all               *)
 (***************************************************************************)
-EXTENDS Values, TLC
+EXTENDS Values, TLC, RangeIdx
 
 CONSTANTS RMin, RMax,      \* range / linspace endpoints RMin..RMax
           MaxN             \* lengths 0..MaxN
 
 (* ---- range ------------------------------------------------------------------ *)
 
-\* members of the progression strictly before b in the direction of the step
-Before(x, b, step) == IF step > 0 THEN x < b ELSE x > b
+\* Before(x, b, step) - members of the progression strictly before b in the direction of the step -, CeilDiv
+\* and RangeCount are RangeIdx.tla's: RangeProof.tla proves the count law for every integer a, b and step
 RECURSIVE RangeFrom(_, _, _)
 RangeFrom(x, b, step) == IF Before(x, b, step) THEN <<x>> \o RangeFrom(x + step, b, step) ELSE <<>>
 DefRange(a, b, step) == RangeFrom(a, b, step)
 
-\* the count law: ceil((b-a)/step) clamped at 0, by exact integer arithmetic
-CeilDiv(p, q) == IF q > 0 THEN -((-p) \div q) ELSE -(p \div (-q))     \* \div floors
-RangeCount(a, b, step) == Max2(0, CeilDiv(b - a, step))
+\* the count law: ceil((b-a)/step) clamped at 0, by exact integer arithmetic (RangeIdx!RangeCount)
 
 RangeExact ==
     \A a \in RMin..RMax, b \in RMin..RMax, step \in {-3, -2, -1, 1, 2, 3} :
